@@ -88,10 +88,17 @@ func (tc *Tcx) IntConstI64(v int64) *Term { return tc.IdxNum(v) }
 
 // VerifyFunction generates all obligations for fn under contract fc.
 func (v *Verifier) VerifyFunction(fn *ssa.Function, fc *FuncContract) (root *RootCtx, err error) {
+	return v.VerifyFunctionBounded(fn, fc, 0)
+}
+
+// VerifyFunctionBounded: with boundedK > 0 every loop is unrolled boundedK times and longer
+// executions are cut off; used only to search for concrete failing inputs.
+func (v *Verifier) VerifyFunctionBounded(fn *ssa.Function, fc *FuncContract, boundedK int) (root *RootCtx, err error) {
 	mode := v.modeOf(fc)
 	pkg, name := funcKey(fn)
 	short := pkg[strings.LastIndex(pkg, "/")+1:] + "." + name
 	root = v.newRoot(short, mode)
+	root.boundedK = boundedK
 	fx := &FnCtx{V: v, tc: v.tcs[mode], root: root, fn: fn, fc: fc, prefix: short,
 		vals: map[ssa.Value]Value{}, params: map[string]Value{}, topLevel: true, regions: map[*ssa.Alloc]*Region{}}
 	root.top = fx
